@@ -47,6 +47,19 @@ CHECKS = {
              "zero delays (the omitted default) give the plain sum. The model is run with integer-tag sources against MultiAntennaArray "
              "(1-5 antennas, 1-2 pols, interleaved set_time/add_time/reset_start), and the formula is evaluated on the implementation.",
         design="3/C15", technique="Coq induction over request sequences (law-free routing) + integer-tag correspondence"),
+    "C11": dict(
+        text="Theorems: scaling a sample by c scales its mean by c and variance by c^2 for every sample, hence chi-squared noise built from unit "
+             "draws of mean k and variance 2k has mean x_mean and variance 2 x_mean^2/k for every k != 0 (the generator's moments are the stated "
+             "hypothesis); truncated noise never falls below its floor and keeps every draw above it; data after = data before + returned array; "
+             "estimates = requested parameters whenever the frame has none (fresh frame, after zero_data, after any signals-only suffix of any "
+             "history), otherwise the re-estimate; add_signal keeps them; table noise uses entries of the tables, one common row with a shared "
+             "index, IndexError on unequal lengths, chi2 deviation sqrt(2k) m / k; get_snr and get_intensity are mutually inverse; stream and "
+             "background variances add for every history of sources and every antenna, a background source raising every antenna equally. One "
+             "generic model is instantiated with exact rationals (theorems) and binary64 (run against the implementation through a recording "
+             "subclass of numpy's Generator: requests, returned arrays, data, estimates, intensities and noise levels bit for bit). PARTIAL: the "
+             "distribution of numpy's draws is an oracle -- sampled at 6.5 sigma, not proved; sigma-clipped re-estimates are compared with an "
+             "independent reference within 1e-9; sqrt rounding in quadrature sums is covered by the twin, not the theorem.",
+        design="3/C11", technique="Coq proof over Q (field/induction) + generic model instantiated at binary64 + recorded-generator correspondence"),
     "C10": dict(
         text="Theorems for all request partitions and op histories about the stream state machine (clock in sample periods, sequential "
              "generator position): concatenated chunked requests = the single request sample for sample (evaluation times and generator "
